@@ -93,6 +93,16 @@ CHECKS = {
          "in the using table. Forms on which the pinned tree deviates are KNOWN-FINDINGs.",
     note="Declaration forms are a hand-written catalogue (expected fields from the property text); TLC, PLY, CPython trusted.",
     design="DESIGN.md 3.5, 4 (C18)", technique=TECH + " (Entities.tla)"),
+ "C11": dict(
+    text="TLC model-checks ClauseOrthogonal / ClausesCombine / NoForeignKeys / ClauseMode / Placement of spec/Clauses.tla over every "
+         "body x every single clause and every compatible ordered pair (thorough: triple) of a 39-clause catalogue (Hive, MySQL, Oracle, "
+         "Redshift, Snowflake, MSSQL, BigQuery, PostgreSQL, Spark, DB2) x {owning mode, default mode}, and must refute them on the "
+         "overwrite and swallow variants. Every shown behaviour is rendered and parsed by the real library in the mode TLC chose: the "
+         "body must equal the clause-free body, each clause key must hold the catalogue value at the placement (top level / "
+         "table_properties) TLC computed, and no other key may appear.",
+    note="Clause texts, values and placements are a catalogue frozen from the pinned tree and reviewed against the property's list; "
+         "clauses are combined within one dialect; TLC, PLY, CPython trusted.",
+    design="DESIGN.md 3.4, 4 (C11)", technique=TECH + " (Clauses.tla)"),
 }
 NOT_YET = {}
 def main():
